@@ -118,7 +118,7 @@ Definition run_old (h:list op) (s:st) : st := fold_left step_old h s.
 (* ---- source facts the effect table rests on (T2) ---- *)
 Local Open Scope string_scope.
 Definition per_call_fields : list string :=
-  ["dataType"; "errorBoundMode"; "absErrBound"; "pw_relBoundRatio"; "fmin"; "fmax"; "dmin"; "dmax"; "accelerate_pw_rel_compression"].
+  ["dataType"; "errorBoundMode"; "absErrBound"; "relBoundRatio"; "pw_relBoundRatio"; "fmin"; "fmax"; "dmin"; "dmax"; "accelerate_pw_rel_compression"].
 Definition is_kernel_file (f:string) : bool :=
   existsb (String.eqb f) ["sz_float.c"; "sz_double.c"; "sz_int8.c"; "sz_uint8.c"; "sz_int16.c"; "sz_uint16.c"; "sz_int32.c"; "sz_uint32.c"; "sz_int64.c"; "sz_uint64.c"].
 (* writes of configuration fields outside the per-call scratch set: only initialisation, the
